@@ -1,3 +1,4 @@
+From Coq Require Import NArith.
 (* Run/RunC09.v — correspondence: a trace of hook events recorded on the running thread pool
    (translated to model labels by the harness) must be a run of Model/Pool.step from the
    initial state, and the final observable projection must agree. *)
@@ -7,7 +8,7 @@ Import ListNotations.
 Open Scope nat_scope.
 
 Record case := mkCase {
-  c_id : nat;
+  c_id : N;
   c_trace : list label;        (* events in the order they were recorded *)
   c_drained : bool;            (* the scenario ended with WaitAll (workers > 0) or JoinAll after
                                   all AddTask calls had returned: every task must have run *)
@@ -62,5 +63,5 @@ Definition verdict (c : case) : nat :=
            end
        end.
 
-Definition check_all (cs : list case) : list (nat * nat) :=
+Definition check_all (cs : list case) : list (N * nat) :=
   filter (fun p => negb (Nat.eqb (snd p) 0)) (map (fun c => (c_id c, verdict c)) cs).
